@@ -46,7 +46,9 @@ class TimeSeries():
             try:
                 t1 = self.time_series[key+1]
             except KeyError:
-                break
+                # the last frame has no successor; the frames need not have been put into the dictionary in the
+                # order of their keys, so the remaining keys still have to be visited
+                continue
             try:
                 self.mapping[key] = self.create_mapping(t0, t1, self.initial_guess[key])
             except DifferentTissueException:
